@@ -63,11 +63,11 @@ func PakAddressToBus(pakAddr uint32) (busAddr uint32, err error) {
 		return
 	} else if pakAddr >= 0xE00000 && pakAddr < 0xEE0000 {
 		// SRAM first $E banks:
-		// bank $70-$7D, $0000-$7FFF
+		// bank $F0-$FF, $0000-$7FFF ($70+bank would put banks $E,$F into WRAM at $7E-$7F)
 		busAddr = (pakAddr - 0xE00000) & 0x07FFFF
 		offs := busAddr & 0x7FFF
 		bank := busAddr >> 15
-		busAddr = ((0x70 + bank) << 16) + offs
+		busAddr = ((0xF0 + bank) << 16) + offs
 		return
 	} else if pakAddr >= 0xEE0000 && pakAddr < 0xF00000 {
 		// SRAM last two banks:
